@@ -85,6 +85,22 @@ CLAIMED.update({
               "push-down), rows outside the mask are skipped only for result kinds that bound the answer from above, and the scanner "
               "plans a post-index filter whenever a recheck is needed.",
               "That zone statistics / bloom bits / trigram postings are supersets is not decided.", "DESIGN.md 3 C20"),
+    "C31": _c("other", "who-may-call over the call graph + enum-arm analysis of the upload state machine",
+              "The two calls that make an object visible (single PUT, multipart complete) are made only from the two state-transition "
+              "helpers, which are called only from poll_shutdown; poll_write/poll_flush cannot reach them; abort and Drop abort an "
+              "in-progress upload and never complete; Done is entered only from a completed visibility future or as a placeholder; the "
+              "bytes made visible are the writer's own buffer and completion waits for all parts.",
+              "Byte equality, retries and store-side atomicity of multipart completion are not decided.", "DESIGN.md 3 C31"),
+    "C36": _c("other", "format-template + origin analysis of catalog predicates and id joins",
+              "Every value interpolated inside a quoted SQL literal of a catalog predicate handed to Scanner::filter / Dataset::delete must "
+              "come from a sanitiser, every component joined with the id delimiter must have been checked not to contain it, and "
+              "user-supplied locations are rejected when absolute or escaping the root.",
+              "Map semantics and pagination are not decided.", "DESIGN.md 3 C36"),
+    "C38": _c("other", "key-struct coverage + discriminator classification of every CacheKey",
+              "Every CacheKey builds its string from all fields of its struct, prefixes sharing a cache are distinct, Dataset cache "
+              "handles are dataset-scoped (for_dataset(uri)), and session-cache keys must carry a content/incarnation discriminator "
+              "rather than only a version or fragment number.",
+              "Result equality under eviction is not decided.", "DESIGN.md 3 C38"),
     "C32": _c("other", "field-coverage (COVER) analysis of every protobuf conversion",
               "For every domain<->protobuf conversion discovered in the format/transaction/MemWAL/frag-reuse/row-id modules: encode reads "
               "every domain field (per Operation variant inside its arm), every stored field is derived from the source (data flow, "
@@ -176,8 +192,12 @@ NOT_APPLICABLE = {
 # properties whose checks are designed (DESIGN.md) but not registered yet
 PENDING = {}
 # checks that exist but are held back from the manifest while a report on the unchanged tree is being triaged
-HOLD = {"C20": "check built; its report on the unchanged tree (AtLeast results in FilteredReadExec) is being reproduced before it is "
-               "either repaired or listed as a known finding; not claimed until then"}
+HOLD = {
+    "C36": "check built (SQL-literal interpolation and delimiter joins in the namespace catalog); its reports on the unchanged tree are "
+           "being reproduced before they are listed as known findings; not claimed until then",
+    "C38": "check built (cache-key discriminators); its reports on the unchanged tree (version-only / fragment-id-only keys) are being "
+           "reproduced before they are listed as known findings; not claimed until then",
+}
 for _k in HOLD:
     CLAIMED.pop(_k, None)
     PENDING[_k] = HOLD[_k]
